@@ -67,7 +67,7 @@ def run(rep, tier, rng):
     for (al, d_from, d_to, kind, src_keys, tgt_keys) in configs:
         A = algs.alg_obj(al)
         for strict, populate, use_solver, req in itertools.product((True, False), (None, False, True), (False, True),
-                                                                   (None, "subset", "with-absent")):
+                                                                   (None, "subset", "with-absent", "empty")):
             if quick and rng.random() < 0.55:
                 continue
             if kind == "orthonormal":
@@ -87,6 +87,8 @@ def run(rep, tier, rng):
                 tgt.add(k, algs.fl(v))
             if req is None:
                 requested = None
+            elif req == "empty":
+                requested = []                              # an explicitly empty selection: the zero transform
             elif req == "subset":
                 requested = src_keys[:2]
             else:
@@ -125,7 +127,7 @@ def run(rep, tier, rng):
                 # post-condition: independent source rows used map exactly onto their namesakes
                 if o[0] == "ok" and kind in ("orthonormal", "independent"):
                     Tm = np.asarray(o[1])
-                    used = [k for k in (requested or src_keys) if k in src_before and k in tgt_after]
+                    used = [k for k in (src_keys if requested is None else requested) if k in src_before and k in tgt_after]
                     rep.case(("solver", repr(base)), nontrivial=len(used) >= 2)
                     rep.count("solver-exact-map")
                     for kk in used:
@@ -211,6 +213,38 @@ def run(rep, tier, rng):
                               {"case": {"alg": al, "target": nm}, "finding_key": key,
                                "python": PRE + f"from nengo_spa.algebras.vtb_algebra import VtbAlgebra\nv = spa.Vocabulary(4, algebra=VtbAlgebra()); v.populate('A')\n"
                                "q = v['A'].reinterpret(None)\nassert q.algebra is v.algebra, type(q.algebra).__name__\n"})
+        # reinterpret on fixed pointers, typed symbols and module outputs, also into a vocabulary without keys
+        from nengo_spa.ast.symbolic import PointerSymbol as _PS
+        from nengo_spa.connectors import as_ast_node as _node
+        from nengo_spa.types import TAnyVocabOfDim as _TD, TVocabulary as _TV
+        v_empty = spa.Vocabulary(d, algebra=A, strict=False)
+        for tgt, nm in ((v2, "same-algebra vocabulary"), (v_empty, "vocabulary without keys"), (None, "no vocabulary")):
+            with spa.Network():
+                objs = {"pointer": lambda: v1["A"].reinterpret(tgt), "typed symbol": lambda: _PS("A", _TV(v1)).reinterpret(tgt),
+                        "dynamic node": lambda: _node(spa.State(v1, subdimensions=1)).reinterpret(tgt),
+                        "module (function)": lambda: spa.reinterpret(spa.State(v1, subdimensions=1), tgt)}
+                for kind_, fn in objs.items():
+                    r = c.outcome(fn)
+                    rep.case(("reinterpret-type", al, nm, kind_))
+                    rep.count("reinterpret-type")
+                    if r[0] != "ok":
+                        rep.violation(f"reinterpret of a {kind_} into {nm} raised {r[0]}", {"case": {"alg": al}, "observed": list(r[:2])})
+                        continue
+                    t = r[1].type if hasattr(r[1], "type") else None
+                    want = _TD(d) if tgt is None else _TV(tgt)
+                    if kind_ == "pointer" and tgt is None:
+                        ok = r[1].vocab is None
+                    elif kind_ == "typed symbol" and tgt is None:
+                        ok = not hasattr(t, "vocab")        # a symbol without vocabulary has no dimensionality either
+                    else:
+                        ok = t == want and (tgt is None or getattr(t, "vocab", None) is tgt)
+                    if not ok:
+                        rep.violation(f"reinterpret of a {kind_} into {nm} has type {t}, expected {want} ({al})",
+                                      {"case": {"alg": al, "target": nm, "kind": kind_},
+                                       "python": PRE + "v1 = spa.Vocabulary(16); v1.populate('A'); v2 = spa.Vocabulary(16)\nwith spa.Network():\n"
+                                                 "    r = spa.reinterpret(spa.State(v1), v2)\nassert r.type.vocab is v2, r.type\n"})
+                    if kind_ in ("dynamic node", "module (function)") and not np.array_equal(np.asarray(r[1].transform), np.eye(d)):
+                        rep.violation(f"reinterpret of a {kind_} applies a transform other than the identity", {"case": {"alg": al, "target": nm}})
         for strict in (True, False):
             vs = spa.Vocabulary(d, algebra=A, strict=strict)
             vs.populate("A; B; C")
